@@ -138,6 +138,9 @@ pub struct Case {
     /// one of `sites` fails with probability `rate/16`.
     #[serde(default)]
     pub io: IoFaults,
+    /// zoneinfo: which non-zone entries the directory also contains.
+    #[serde(default)]
+    pub decoys: u32,
 }
 
 #[derive(Clone, Debug, Default, PartialEq, Eq, Serialize, Deserialize)]
@@ -218,6 +221,11 @@ pub struct Gen<'a> {
 
 impl<'a> Gen<'a> {
     fn content(&mut self, allow_real: bool) -> Content {
+        if allow_real && self.rng.chance(1, 25) {
+            let k = self.next_k;
+            self.next_k += 1;
+            return Content::Truncated { k, len: 4 + self.rng.below(100) as u8 };
+        }
         if allow_real && self.rng.chance(1, 6) {
             Content::Real(self.rng.usize_below(zonegen::REAL_TZIF.len()))
         } else {
@@ -515,5 +523,11 @@ pub fn generate(rng: &mut Rng, tier: Tier, force_fault_free: Option<bool>) -> Ca
         IoFaults::default()
     };
 
-    Case { backend, universe, initial, alias, mono, threads, settle, fault_free, io }
+    let decoys = if backend == Backend::ZoneInfo && g.rng.chance(1, 2) {
+        g.rng.below(16) as u32
+    } else {
+        0
+    };
+
+    Case { backend, universe, initial, alias, mono, threads, settle, fault_free, io, decoys }
 }
